@@ -293,11 +293,11 @@ def gen_c10_extra(ctx, thorough):
 # ------------------------------------------------------------------ table
 
 FAM = {
-    'C01': dict(cfg=('H2Server_c01_q.cfg', 'H2Server_c01_t.cfg'), budget=(900, 25000), units=[1, 9000],
+    'C01': dict(cfg=('H2Server_c01_q.cfg', 'H2Server_c01_t.cfg'), budget=(900, 8000), units=[1, 9000],
                 hcfg=lambda u: {'maxConc': 2, 'unit': u}, extra=gen_c01_extra, props={'C01'}),
-    'C06': dict(cfg=('H2Server_c06_q.cfg', 'H2Server_c06_t.cfg'), cfgs_t=('H2Server_c06b_t.cfg',), budget=(900, 25000), units=[13107],
+    'C06': dict(cfg=('H2Server_c06_q.cfg', 'H2Server_c06_t.cfg'), cfgs_t=('H2Server_c06b_t.cfg',), budget=(900, 8000), units=[13107],
                 hcfg=lambda u: {'maxConc': 2, 'unit': u, 'initWin': 2 * u}, extra=gen_c06_extra, props={'C06'}),
-    'C10': dict(cfg=('H2Server_c10_q.cfg', 'H2Server_c10_t.cfg'), budget=(700, 20000), units=[1],
+    'C10': dict(cfg=('H2Server_c10_q.cfg', 'H2Server_c10_t.cfg'), budget=(700, 6000), units=[1],
                 hcfg=lambda u: {'maxConc': 2, 'unit': u, 'initWin': 2, 'maxBody': 3}, extra=gen_c10_extra, props={'C10'}),
 }
 
